@@ -31,6 +31,7 @@ def slice_abs(A, s, e):
 def ev_find(pp, tid, T, Q, ignore, via, objs=None):
     t, q = objs if objs is not None else (anngen.build(pp, T), anngen.build(pp, Q))
     if via == "str":
+        project.maybe_poison(pp, anngen.render(T), tid)
         f = lambda: pp.find_subsequence_indices(anngen.render(T), anngen.render(Q), ignore_mods=ignore)
     else:
         f = lambda: pp.find_subsequence_indices(t, q, ignore_mods=ignore)
@@ -117,6 +118,54 @@ def run(tier, seed, rep):
                                                          ignore_mods=ignore))
                 evs.append({"tid": f"m{j}.{len(evs)}", "k": "c16", "op": "percent", "T": T, "subs": subs,
                             "ignore": ignore, "out": o, "res": fix(r2) if o == "ret" else [0, 0]})
+        # modifications that differ only in a number (-1 / -2 / -1.0 / -2.0: distinct modifications whose values collide in
+        # many hash functions): the query is a stretch of the target with one number exchanged for its neighbour
+        T4 = anngen.annotation(rnd, 3, 12, alphabet="AS", density=0.6,
+                               p={k: 0 for k in ("labile", "static", "isotope", "unknown", "nterm", "cterm", "interval", "charge")})
+        near = ["i:-1", "i:-2", "f:-1.0", "f:-2.0", "i:1", "i:2"]
+        for e_ in T4["internal"]:
+            e_["mods"] = [{"v": rnd.choice(near), "m": 1}]
+        n4 = len(T4["seq"])
+        s4 = rnd.randint(0, n4 - 1)
+        Q4 = copy.deepcopy(slice_abs(T4, s4, rnd.randint(s4 + 1, min(n4, s4 + 3))))
+        if Q4["internal"] and rnd.random() < 0.7:
+            m_ = rnd.choice(Q4["internal"])["mods"][0]
+            m_["v"] = {"i:-1": "i:-2", "i:-2": "i:-1", "f:-1.0": "f:-2.0", "f:-2.0": "f:-1.0", "i:1": "i:2", "i:2": "i:1"}[m_["v"]]
+        evs.append(ev_find(pp, f"m{j}.{len(evs)}", T4, Q4, False, "ann" if rnd.random() < 0.7 else "str"))
+        o, r2 = call(lambda: pp.is_subsequence(anngen.build(pp, Q4), anngen.build(pp, T4), order=True))
+        evs.append({"tid": f"m{j}.{len(evs)}", "k": "c16", "op": "ordered", "T": T4, "Q": Q4, "out": o,
+                    "res": bool(r2) if o == "ret" else False})
+        # one target object over its life: searched (modifications ignored), edited in place or cut, searched again. The
+        # target of the later events is what the object itself reports after the edit.
+        if subs:
+            tobj = anngen.build(pp, T)
+            qobj = anngen.build(pp, subs[0])
+            call(lambda: pp.find_subsequence_indices(tobj, qobj, ignore_mods=True))
+            call(lambda: pp.coverage(tobj, [qobj], ignore_mods=True))
+            kind = rnd.choice(["reverse", "slice_inplace", "slice_copy", "shift", "none"])
+            s5 = rnd.randint(0, n - 1)
+            e5 = rnd.randint(s5 + 1, n)
+            cut = tobj
+            if kind == "reverse":
+                o5, _ = call(lambda: tobj.reverse(inplace=True))
+            elif kind == "slice_inplace":
+                o5, _ = call(lambda: tobj.slice(s5, e5, inplace=True))
+            elif kind == "slice_copy":
+                o5, cut = call(lambda: tobj.slice(s5, e5))
+            elif kind == "shift":
+                o5, _ = call(lambda: tobj.shift(rnd.randint(1, 3), inplace=True))
+            else:
+                o5 = "ret"
+            if o5 == "ret" and cut is not None:
+                o6, T5 = call(lambda: project.ann(cut))
+                if o6 == "ret" and not T5["intervals"]:
+                    for ignore in (True, False):
+                        o, r_ = call(lambda: pp.find_subsequence_indices(cut, qobj, ignore_mods=ignore))
+                        evs.append({"tid": f"m{j}.{len(evs)}", "k": "c16", "op": "find", "T": T5, "Q": subs[0], "ignore": ignore,
+                                    "via": "ann", "out": o, "res": list(r_) if o == "ret" else []})
+                    o, r2 = call(lambda: pp.coverage(cut, [qobj], accumulate=False, ignore_mods=True))
+                    evs.append({"tid": f"m{j}.{len(evs)}", "k": "c16", "op": "coverage", "T": T5, "subs": [subs[0]],
+                                "accumulate": False, "ignore": True, "out": o, "res": list(r2) if o == "ret" else []})
         # order-insensitive containment: residue-mod-only annotations
         T2 = anngen.annotation(rnd, 1, 12, alphabet="PEK", density=0.4,
                                p={k: 0 for k in ("labile", "static", "isotope", "unknown", "nterm", "cterm", "interval", "charge")})
